@@ -76,29 +76,69 @@ def lu_model(a, *args, **kw):
 # parametrised contract stubs
 
 REGISTRY = {}      # (name, key) -> factors
+MATRICES = {}      # (name, key) -> the matrix the factors belong to
 ALLOW_ORTHONORMAL_QR = [False]
 
 
 def clear():
     REGISTRY.clear()
+    MATRICES.clear()
     ALLOW_ORTHONORMAL_QR[0] = False
 
 
 def register(name, A0, factors):
     REGISTRY[(name, _key(A0))] = factors
+    MATRICES[(name, _key(A0))] = _obj(A0)
+
+
+def _differ_possible(ctx, x, y):
+    if x.id == y.id:
+        return False
+    ne = (x != y)
+    if not isinstance(ne, S.BoolSym):
+        return bool(ne)
+    return ctx.feasible(ne) != 'unsat'
+
+
+def _provably_equal(ctx, a, b):
+    """every entry of a equals the corresponding entry of b for ALL values allowed by the current
+    path condition (one solver query per entry that is not the same node already)"""
+    for x, y in zip(a.ravel(), b.ravel()):
+        x, y = S.lift(x), S.lift(y)
+        if isinstance(x, Sym) and isinstance(y, Sym):
+            if _differ_possible(ctx, x, y):
+                return False
+        else:
+            x, y = S.SymC._lift(x), S.SymC._lift(y)
+            if _differ_possible(ctx, x.re, y.re) or _differ_possible(ctx, x.im, y.im):
+                return False
+    return True
 
 
 def _lookup(name, a):
     f = REGISTRY.get((name, _key(a)))
     if f is None:
+        # the matrix was *computed* by the code under test (e.g. the block Q0^T A1 Q0 that eigh
+        # factorises when an eigenvalue of A0 is repeated): it is served when the solver proves it
+        # equal, entry by entry, to a matrix the harness built from its factors
+        ctx = S.current_ctx()
+        a_ = _obj(a)
+        if ctx is not None and ctx.mode == 'sym':
+            for (nm, key), m in MATRICES.items():
+                if nm == name and m.shape == a_.shape and _provably_equal(ctx, a_, m):
+                    npx._hit('%s(matched a registered matrix by solver-proved equality)' % name)
+                    return REGISTRY[(nm, key)]
         raise S.SymError('%s stub called on a matrix that was not constructed from its factors' % name)
     return f
 
 
 def qr_stub(a, mode='reduced', *args, **kw):
     if ('qr', _key(a)) not in REGISTRY and ALLOW_ORTHONORMAL_QR[0]:
-        Q, R = _orthonormal_qr(a)
-        npx._hit('qr(orthogonal input, unused result)')
+        try:
+            Q, R = _lookup('qr', a)       # (a computed matrix the solver proves equal to a registered one)
+        except S.SymError:
+            Q, R = _orthonormal_qr(a)
+            npx._hit('qr(orthogonal input, unused result)')
         return npx.SArr(_obj(Q), float), npx.SArr(_obj(R), float)
     Q, R = _lookup('qr', a)
     return npx.SArr(_obj(Q), float), npx.SArr(_obj(R), float)
